@@ -435,6 +435,18 @@ func genC19(tier string, emit func(any)) {
 		}
 	}
 
+	// 4b. section lengths sweeping the 3-byte varint boundary 16384 +-40 (the 2-byte boundary 128 +-40 lies inside
+	// many150 = lengths 40..189), for the commands that walk or re-emit the sections themselves
+	sweepConts := []string{"v1", "v2pad"}
+	if thorough {
+		sweepConts = conts5
+	}
+	for _, cont := range sweepConts {
+		for _, cmd := range []string{"index:mh", "index:sorted", "index:none", "index:v1", "index:default", "index-create:mh", "index-create:sorted", "detach", "filter", "filter:inverse", "get-block", "list", "concat:v1:2", "check-input"} {
+			emit(C19Case{Roots: "a", Seq: []string{"a", "sweep16384", "b"}, Cont: cont, Cmd: cmd})
+		}
+	}
+
 	// 5. header shapes: duplicate root, CIDv0 root
 	rootSeqs := [][]string{{"a0", "b"}, {"a", "b"}}
 	rootConts := []string{"v1", "v2"}
@@ -550,6 +562,9 @@ func genC19(tier string, emit func(any)) {
 			}
 		}
 	}
+
+	// 12. get-dag --selector over every small DAG (c19sel.go)
+	genC19Sel(tier, emit)
 }
 
 func init() {
@@ -561,6 +576,8 @@ func init() {
 			switch cs.Cmd {
 			case "get-dag":
 				runC19Dag(x, cs)
+			case "get-dag-selector":
+				runC19Sel(x, cs)
 			case "create":
 				runC19Create(x, cs)
 			default:
@@ -569,17 +586,24 @@ func init() {
 		},
 		Setup:  func(string) error { return drv.BuildCar() },
 		Decode: kit.DecodeAs[C19Case],
-		Rule: "every input archive up to the bound laid out by the reference encoder (CARv1, CARv2, padded CARv2 with digest-only index, index-less CARv2, padded index-less CARv2; roots a / ab / none, and on a reduced sequence set aa (duplicate) / a0 (CIDv0); identity, duplicate and equal-multihash blocks; plus archives of 150 sections and of 56 KiB - 2 MiB with 3- and 4-byte section varints) x every sub-command and flag set " +
+		Rule: "every input archive up to the bound laid out by the reference encoder (CARv1, CARv2, padded CARv2 with digest-only index, index-less CARv2, padded index-less CARv2; roots a / ab / none, and on a reduced sequence set aa (duplicate) / a0 (CIDv0); identity, duplicate and equal-multihash blocks; plus archives of 150 sections (section lengths 40..189: the 2-byte varint boundary 128 +-40 and more), of 81 sections with lengths 16384-40..16384+40 (the 3-byte boundary; index / index create / detach-index / filter / get-block / list / concat / acceptors) and of 56 KiB - 2 MiB with 3- and 4-byte section varints) x every sub-command and flag set " +
 			"(index with each codec / none / no --codec / --version 1, index create with each codec / no --codec, detach-index (+list), filter plain / --inverse / --version 1 / --append / all / none, get-block of every CID over a stale output file, list (file and stdin), root, concat of 1-3 inputs as v1 and v2, inspect (must accept; the fields of its report are compared and a difference is recorded as an outcome), the two acceptors on the input itself) run with the REAL car binary; " +
 			"reduced matrices (fully enumerated, listed in genC19): stdout forms of index / index create / detach-index / get-block / concat and stdin forms (pipe and redirected file) of filter's CID list / detach-index list / root / list / inspect, list to a file (an alternate form that is not byte-equal to the file form is judged on its own by the same oracle); a stale longer CARv2 or garbage file at the output path; a CID list with CRLF, padding, blank lines, a repeated entry and no final newline; " +
 			"append targets (1 root / 2 roots + digest-only index / no roots / padded / CARv1) with overlapping content, --append --inverse, --append --version 1; flag values outside the documented ones (refusal or valid output); negative controls of inspect --full and verify; " +
 			"car create of 6 source shapes x v1/v2 x wrap/no-wrap; get-dag v1/v2 from every start node (implicit root, explicit, absent) of a UnixFS DAG in 6 variants (block order, an absent linked block x --strict, raw / identity / dag-cbor leaves, 2 roots, 0 roots) x 5 containers x 4 kinds of pre-existing output, plus a matcher-only --selector; " +
+			"get-dag --selector (c19sel.go): every DAG of n nodes (node 0 = root, links i->j for i<j, every node reachable; link multiplicity 0..1 for n <= 4 (thorough 5), 0..2 for n <= 3 (thorough 4): all shared sub-DAGs, diamonds and one node linking a child twice; children in ascending and in descending node order; dag-cbor/CIDv1 and dag-pb/CIDv0 nodes (dag-pb n <= 4); an unrelated block stored alongside) " +
+			"x the selector family {matcher, explore-all without limit, explore-all with every depth limit 0..n+1 (dag-pb 0..3n+1: a link sits three data-model steps below its node), union of the first two link fields of the start node each continued with explore-all limited to 1 / 2 / 3 blocks or unlimited (16 pairs), recursive first-child and second-child spines, spine + shallow explore-all} x --version 1 / 2, " +
+			"compared with the blocks go-ipld-prime's own walker loads for the same selector text over the same blocks (each once, first-load order; revisits allowed, as get-dag requests for a custom selector), output root = start CID, output accepted by inspect --full and verify; " +
+			"reduced matrices (fully enumerated, genC19Sel): input container v1+v2 for n <= 3, v1 for n = 4 (thorough: all 5 for n <= 3 and the single-link DAGs of 4 nodes, v1+v2 otherwise); on the first container for n <= 3 (thorough also single-link n = 4): implicit start + root-first block order, start at node 1, each node k >= 1 absent from the archive (v2 skips it like the library walk answering SkipMe; thorough: x --strict must refuse when the walk reaches it); " +
 			"every produced archive is re-checked with car inspect --full and car verify, its embedded index is compared with its payload, and its content with the reference answer; every input is re-read after the command (a change is recorded as an outcome); " +
 			"what the statement does not carry is recorded as a beyond-statement:* outcome, never as a violation: the text of the inspect report and of detach-index list, whether a digest-only index can be listed, side effects on the input or on the target of a refused append, a refused CID list that is empty or messy; non-trivial = non-empty input",
 		Bound: func(tier string) map[string]any {
-			b := map[string]any{"seq_len": 2, "alphabet": 6, "commands": len(c19Cmds) + len(c19DefaultCmds) + 4, "containers": 5, "max_sections": 150, "max_archive_bytes": 16384 + 40000 + 100,
-				"get_block_queries": "every CID for archives of <= 6 blocks, else first/second/middle/last, plus an absent CID and b"}
+			b := map[string]any{"seq_len": 2, "alphabet": 6, "commands": len(c19Cmds) + len(c19DefaultCmds) + 5, "containers": 5, "max_sections": 150, "max_archive_bytes": 81*16384 + 200,
+				"get_block_queries":      "every CID for archives of <= 6 blocks, else first/second/middle/last, plus an absent CID and b",
+				"get_dag_selector_nodes": 4, "get_dag_selector_nodes_link_multiplicity_2": 3, "get_dag_selector_codecs": 2, "get_dag_selector_selectors": "cbor 23+n, pb 23+3n", "get_dag_selector_versions": 2}
 			if tier == "thorough" {
+				b["get_dag_selector_nodes"] = 5
+				b["get_dag_selector_nodes_link_multiplicity_2"] = 4
 				b["alphabet"] = 9
 				b["max_archive_bytes"] = 2097152 + 16383 + 100
 			}
@@ -597,6 +621,8 @@ func init() {
 			"the recorded finding c19:inspect-full-v1:trailing-data-probe is keyed on structure (a CARv1 the reference decoder and plain car inspect accept, refused by --full), not on the error text",
 			"get-dag: only --strict fails on a link to an absent block for --version 2; for --version 1 (SelectiveCar) a refusal is accepted; no start CID with 0 or 2 roots, or an absent start block, has no answer (refusal or valid output)",
 			"identity-CID leaves may or may not be stored by get-dag (dropped by the CARv2 blockstore, kept by the CARv1 writer)",
+			"get-dag --selector: the reference is go-ipld-prime's walker driven by the harness (go-ipld-prime is trusted, go-car is not) with the link-target prototype rule both get-dag writers use (dag-pb blocks into the dag-pb prototype, everything else into basicnode Any); if an untyped dag-pb walk loads other blocks either answer is accepted (outcome get-dag-selector:prototype-sensitive); a selector the reference walk fails on has no answer (outcome); selectors with InterpretAs (the unixfs reifier, known to the CARv2 writer only) are not in the family; block order = first-load order of the walk, as already judged for the default selector",
+			"get-dag --selector: the acceptors (inspect --full, verify) are functions of the file bytes; within one case they run once per distinct output",
 			"car inspect needs a seekable stdin (redirected file); through a pipe it fails with 'illegal seek' - observed, not judged (inspect is not an emitting sub-command)",
 			"car verify rejects a padded index-less CARv2 input ('header claims no index, but extra bytes'): no sub-command emits such an archive, so it is recorded as an outcome (verify-rejects:check-input), not judged",
 			"car create onto an existing file resumes into it and refuses a file that is not its own unfinished output (refusal = nothing emitted)",
